@@ -41,6 +41,10 @@ type c11Driver struct {
 	// live: when set, every step runs on these same controller instances (inside one bubble) instead of on fresh
 	// instances restored from the state: whatever the controllers keep in memory survives from step to step
 	live *w.Live
+	// late: when a fault fires while a failed canary waits to be rolled back, the next reconcile comes only 15 minutes
+	// later (a fresh instance that takes its time, a retry at the end of the queue's back-off): the rollback of a failed
+	// canary does not depend on the time that passed
+	late bool
 }
 
 func (d *c11Driver) do(ev w.Event) {
@@ -103,6 +107,7 @@ func (d *c11Driver) do(ev w.Event) {
 			}
 		}
 	}
+	pre := d.s
 	prefix := append([]w.Event{}, d.done...)
 	mc := w.NewMonCtx(d.sc, d.s, out, d.run, func() (int, []w.Event) { return 0, prefix })
 	mc.Extra = map[string]interface{}{"faults": d.faults}
@@ -111,6 +116,27 @@ func (d *c11Driver) do(ev w.Event) {
 	}
 	d.done = append(d.done, ev)
 	d.s = out.Next
+	if d.late && len(mine) > 0 && rollbackPending(pre) {
+		for _, call := range out.Log {
+			if call.Fault != "" {
+				d.run.Count("late_takeovers", 1)
+				d.do(w.Event{K: "tick", N: 900})
+				break
+			}
+		}
+	}
+}
+
+// rollbackPending: a canary replica set is marked failed and spec.template still is its template.
+func rollbackPending(s *w.State) bool {
+	for _, e := range s.EDSs() {
+		for _, r := range s.ERSs() {
+			if r.Namespace == e.Namespace && w.ERSCondTrue(r, v1.ConditionTypeCanaryFailed) && r.Spec.TemplateGeneration == w.TemplateHash(&e.Spec.Template) && e.Status.ActiveReplicaSet != r.Name {
+				return true
+			}
+		}
+	}
+	return false
 }
 
 func (d *c11Driver) round() bool {
@@ -311,8 +337,8 @@ func c11RunPersistent(t *testing.T, run *h.Run, sc *w.Scenario, c c11Scenario, f
 	}
 }
 
-func c11Run(t *testing.T, run *h.Run, sc *w.Scenario, c c11Scenario, faults []c11Fault, want string, mons []func(*w.MonCtx)) {
-	d := &c11Driver{t: t, run: run, sc: sc, faults: faults, mons: mons}
+func c11Run(t *testing.T, run *h.Run, sc *w.Scenario, c c11Scenario, faults []c11Fault, want string, mons []func(*w.MonCtx), late ...bool) {
+	d := &c11Driver{t: t, run: run, sc: sc, faults: faults, mons: mons, late: len(late) > 0 && late[0]}
 	if faults == nil {
 		d.faults = []c11Fault{}
 	}
@@ -320,13 +346,18 @@ func c11Run(t *testing.T, run *h.Run, sc *w.Scenario, c c11Scenario, faults []c1
 	r := w.Closure(t, sc, d.s, w.ClosureOpts{SkipJumps: true})
 	run.Count("fault_runs", 1)
 	rep := func() interface{} {
-		return map[string]interface{}{"scenario": sc.Name, "faults": faults, "trace": fmt.Sprint(d.done), "final_state": r.Final.Describe(), "expected_final": strings.Split(want, "\n")}
+		return map[string]interface{}{"scenario": sc.Name, "faults": faults, "next_reconcile_15_minutes_after_the_fault": d.late, "trace": fmt.Sprint(d.done), "final_state": r.Final.Describe(), "expected_final": strings.Split(want, "\n")}
 	}
 	if !r.Converged {
 		run.Violate(h.Violation{Signature: "C11/recover: after the fault, failure-free reconciliation does not converge", Monitor: "C11/closure", Message: r.Why, Rank: int64(len(faults)), Replay: rep()})
 		return
 	}
-	if got := c11Normal(r.Final); got != want {
+	got := c11Normal(r.Final)
+	if d.late {
+		// a quarter of an hour later a failed replica set without pods may be gone (it is kept for two minutes at least)
+		got, want = c11DropLeftovers(got), c11DropLeftovers(want)
+	}
+	if got != want {
 		kinds := []string{}
 		for _, f := range faults {
 			kinds = append(kinds, f.Kind+" "+strings.SplitN(f.Key, " ", 3)[0]+" "+strings.SplitN(f.Key, " ", 3)[1])
@@ -334,6 +365,17 @@ func c11Run(t *testing.T, run *h.Run, sc *w.Scenario, c c11Scenario, faults []c1
 		run.Violate(h.Violation{Signature: "C11/recover: final pods / status differ from the run without the failure (" + strings.Join(kinds, " + ") + ")", Monitor: "C11/closure",
 			Message: "got:\n" + got, Rank: int64(len(faults)), Replay: rep()})
 	}
+}
+
+func c11DropLeftovers(n string) string {
+	var out []string
+	for _, l := range strings.Split(n, "\n") {
+		if strings.HasPrefix(l, "ers ") && strings.HasSuffix(l, "status=unknown d/c/r/a=0/0/0/0") {
+			continue
+		}
+		out = append(out, l)
+	}
+	return strings.Join(out, "\n")
 }
 
 func c11Scenarios() []c11Scenario {
@@ -401,6 +443,7 @@ func TestC11(t *testing.T) {
 		c11RunPersistent(t, run, sc, c, nil, want)
 		parallel(len(sites), func(i int) {
 			c11Run(t, run, sc, c, []c11Fault{sites[i]}, want, mons)
+			c11Run(t, run, sc, c, []c11Fault{sites[i]}, want, mons, true)
 			if sites[i].Kind != w.FaultStop {
 				c11RunPersistent(t, run, sc, c, []c11Fault{sites[i]}, want)
 			}
